@@ -94,6 +94,13 @@ def cases(tier, rng):
         b = R.encode(R.Art([pal], [im], [], 0))
         pix = PIX["mid"] if im.off != 96 else PIX["mid"]
         yield Case(f"!prt.use {b.hex()} {pix.hex()} 1", check=use_check, tag="image-lattice")
+    # zero-width images whose height does not fit a signed 32-bit bitmap height: refused at once by a correct
+    # extraction (2^31 - 1 is left out: it is legal, and its 2^31 empty row writes outlast the watchdog)
+    for h in (0x80000000, 0x80000001, 0xFFFFFFFF, 0xC0000000):
+        for off in (0, 1, 96):
+            for ty in (0, 4):
+                b = R.encode(R.Art([pal], [R.Image(0, off, h, 0, ty, 0), R.Image(4, 10, 2, 3, 0, 0)], [], 0))
+                yield Case(f"!prt.use {b.hex()} {PIX['mid'].hex()} 1", check=use_check, tag="zero-width-huge-height")
     # pixel range exactly at / one past the end of the pixel file
     for w, h in [(4, 4), (8, 3), (1, 1), (3, 2)]:
         n = R.round4(w) * h
